@@ -153,6 +153,16 @@ static void s_arrays_strings(void)
 	O(json_is_true(json_boolean(3))); O(json_boolean(0) == json_false()); O(json_true() == json_true());
 	O(json_is_null(json_null()));
 	O(json_integer_value(s)); O(json_string_value(a) == NULL);
+	{
+		json_t *r = json_real(2.5), *big = json_integer(9007199254740993LL);
+		O((long)(json_real_value(r) * 4)); O((long)(json_number_value(r) * 2));
+		O((long)json_number_value(big) == 9007199254740992LL);  /* rounded by the double */
+		O((long)json_integer_value(big) == 9007199254740993LL);
+		O(json_real_set(r, 1.0)); O((long)json_real_value(r)); O(json_real_set(big, 1.0));
+		O((long)json_number_value(s)); O((long)json_real_value(big));
+		json_decref(r);
+		json_decref(big);
+	}
 	json_decref(a);
 	json_decref(s);
 }
